@@ -258,16 +258,14 @@ def _quasi(item):
     from fractions import Fraction
     try:
         _, Eg = implrun.new_election(gen.blt(p), og)
-        with contextlib.redirect_stdout(io.StringIO()):
-            Eg.count()
+        implrun.limited_count(Eg, 4.0)
         from droop.values.guarded import Guarded
         maxd, mind = Guarded.maxDiff, Guarded.minDiff
         pr, g = Guarded.precision, Guarded.guard
         sc = 10 ** (pr + g)
         vg = _view(Eg, sc)
         _, Er = implrun.new_election(gen.blt(p), orr)
-        with contextlib.redirect_stdout(io.StringIO()):
-            Er.count()
+        implrun.limited_count(Er, 4.0)
         vr = _view(Er, 1)
     except Exception as e:
         return ('exc', type(e).__name__)
